@@ -236,6 +236,11 @@ func runC11World(r *Run, seed int64, nReq int) {
 			if strings.HasPrefix(cfg.ownNet, "testnet") && rng.Intn(2) == 0 {
 				q.network = pick(rng, "testnet3", "testnet4", "testnet")
 			}
+			for q.network == cfg.ownNet {
+				// (this deviation is "another network"; the own one would turn a Liquid request into an ordinary
+				// Bitcoin request priced with the Bitcoin rate, which the reference above was not set up for)
+				q.network = pick(rng, "mainnet", "testnet", "signet", "testnet3", "testnet4", "regtest")
+			}
 			q.desc = append(q.desc, "network")
 			switch q.network {
 			case "bitcoin", "", "junk":
@@ -334,6 +339,7 @@ func TestC11(t *testing.T) {
 	r := newRun(t, "C11", "exploration")
 	defer r.Finish()
 	r.Rule = "generated (policy/config, request) pairs delivered to a real node (file-backed policy.Policy, real premium.Setting, real state machines) by a scripted requester; oracle = reference admission predicate in math/big written from the statement; agreement => admit, not admit => cancel and no agreement. distinct = (swap type, chain, first refusal reason | admit, agreement sent)"
+	r.Rule += " The node's Bitcoin wallet reports regtest, testnet3, testnet4, mainnet or signet; requests name the own network, a neighbour (testnet / testnet3 / testnet4) or another one."
 	r.Assumptions = []string{"channel balances and on-chain balances are what the simulated Lightning node / wallet report", "opening-fee estimate taken from the node's own wallet object"}
 	worlds := r.N(150, 6000)
 	parallelDo(worlds, 12, func(i int) { runC11World(r, r.Seed*31337+int64(i)+1, 8) })
